@@ -10,9 +10,127 @@ import (
 const paramControlFile = "generator/parameter/zz_verif_control_c12.go"
 const graphControlFile = "generator/graph/zz_verif_control_c12.go"
 
+const nodesControlFile = "nodes/zz_verif_control_c12.go"
+const genControlFile = "generator/zz_verif_control_c12.go"
+
 func controls() map[string]string {
-	return map[string]string{paramControlFile: paramControlSrc, graphControlFile: graphControlSrc}
+	return map[string]string{paramControlFile: paramControlSrc, graphControlFile: graphControlSrc + graphControlSrc2,
+		nodesControlFile: nodesControlSrc, genControlFile: genControlSrc}
 }
+
+// PERSIST-6 controls (package nodes)
+const nodesControlSrc = `package nodes
+
+import (
+	"sort"
+
+	"github.com/EliCDavis/polyform/refutil"
+)
+
+// must fire: inputs whose source was already listed are filtered out
+func verifControlDepsBad(data any) []NodeDependency {
+	out := make([]NodeDependency, 0)
+	seen := map[Node]bool{}
+	for key, val := range refutil.FieldValuesOfType[NodeOutputReference](data) {
+		if seen[val.Node()] {
+			continue
+		}
+		seen[val.Node()] = true
+		out = append(out, StructDependency{name: key, dep: val.Node(), dependencyPort: val.Port()})
+	}
+	return out
+}
+
+// must stay silent: keys sorted by a helper, entries built by a constructor, nil skipped
+func verifControlDepsGood(data any) []NodeDependency {
+	var out []NodeDependency
+	m := refutil.FieldValuesOfType[NodeOutputReference](data)
+	keys := make([]string, 0, len(m))
+	for k := range m {
+		keys = append(keys, k)
+	}
+	sort.Strings(keys)
+	for i := 0; i < len(keys); i++ {
+		ref := m[keys[i]]
+		if ref == nil {
+			continue
+		}
+		out = append(out, verifControlNewDep(keys[i], ref))
+	}
+	return out
+}
+
+func verifControlNewDep(name string, ref NodeOutputReference) StructDependency {
+	return StructDependency{dependencyPort: ref.Port(), dep: ref.Node(), name: name}
+}
+`
+
+// SAVE-1 controls (package generator)
+const genControlSrc = `package generator
+
+import "os"
+
+// must fire: no truncation
+func (gs *GraphSaver) verifControlSaveBad() {
+	f, err := os.OpenFile(gs.savePath, os.O_RDWR|os.O_CREATE, 0666)
+	if err != nil {
+		panic(err)
+	}
+	defer f.Close()
+	if _, err := f.Write(gs.app.Schema()); err != nil {
+		panic(err)
+	}
+}
+
+// must stay silent: fresh side file renamed onto the save path
+func (gs *GraphSaver) verifControlSaveGood() {
+	tmp := gs.savePath + ".new"
+	f, err := os.Create(tmp)
+	if err != nil {
+		panic(err)
+	}
+	data := gs.app.Schema()
+	if _, err = f.Write(data); err != nil {
+		f.Close()
+		panic(err)
+	}
+	if err = f.Close(); err != nil {
+		panic(err)
+	}
+	if err = os.Rename(tmp, gs.savePath); err != nil {
+		panic(err)
+	}
+}
+`
+
+// PERSIST-7 controls (package graph, appended to the graph control file)
+const graphControlSrc2 = `
+// must fire: id removed before the producers are compared with it
+func (i *Instance) verifControlDeleteBad(nodeId string) {
+	for n, id := range i.nodeIDs {
+		if id == nodeId {
+			delete(i.nodeIDs, n)
+		}
+	}
+	for filename, producer := range i.producers {
+		if i.nodeIDs[producer.Node()] == nodeId {
+			delete(i.producers, filename)
+		}
+	}
+}
+
+// must stay silent
+func (i *Instance) verifControlDeleteGood(nodeId string) {
+	node := i.Node(nodeId)
+	for filename, producer := range i.producers {
+		if producer.Node() != node {
+			continue
+		}
+		delete(i.producers, filename)
+	}
+	delete(i.nodeIDs, node)
+}
+`
 
 const paramControlSrc = `package parameter
 
@@ -308,8 +426,22 @@ func (k *checker) finishControls() {
 		k.persist4On(c.P.Func("generator/graph", "Instance.verifControlEncodeBad"), "control.EncodeBad")
 		k.persist4On(c.P.Func("generator/graph", "Instance.verifControlBytesGood"), "control.BytesGood")
 		k.persist4On(c.P.Func("generator/graph", "Instance.verifControlEncodeGood"), "control.EncodeGood")
+		if tables, ok := k.instanceTables(); ok && get("verifControlDeleteBad") {
+			k.persist7Delete(c.P.Func("generator/graph", "Instance.verifControlDeleteBad"), "control.DeleteBad", tables)
+			k.persist7Delete(c.P.Func("generator/graph", "Instance.verifControlDeleteGood"), "control.DeleteGood", tables)
+		}
 	} else {
 		c.R.Note("C12 graph control overlay not loaded")
+	}
+	if f := c.P.Func("nodes", "verifControlDepsBad"); f != nil {
+		k.persist6On(f, "control.DepsBad")
+		k.persist6On(c.P.Func("nodes", "verifControlDepsGood"), "control.DepsGood")
+	}
+	if f := c.P.Func("generator", "GraphSaver.verifControlSaveBad"); f != nil {
+		if sf := c.P.Func("generator", "App.Schema"); sf != nil {
+			k.save1On(f, sf, "control.SaveBad")
+			k.save1On(c.P.Func("generator", "GraphSaver.verifControlSaveGood"), sf, "control.SaveGood")
+		}
 	}
 	has := func(list []string, sub string) bool {
 		for _, s := range list {
@@ -340,6 +472,9 @@ func (k *checker) finishControls() {
 		{"PERSIST-3", "control.BuildBad#data"},
 		{"PERSIST-4", "verifControlBytesBad"},
 		{"PERSIST-4", "verifControlEncodeBad#encoder"},
+		{"PERSIST-6", "control.DepsBad#FieldValuesOfType"},
+		{"PERSIST-7", "control.DeleteBad#id-read-before-delete"},
+		{"SAVE-1", "control.SaveBad#replace"},
 	}
 	for _, w := range bad {
 		v := ob.Holds
@@ -348,7 +483,7 @@ func (k *checker) finishControls() {
 		}
 		c.R.Control(w.rule, "control:bad:"+w.sub, "zz_verif_control_c12.go", v, ob.Violation, "seeded defect must be reported")
 	}
-	for _, rule := range []string{"PERSIST-1", "PERSIST-2", "PERSIST-3", "PERSIST-4"} {
+	for _, rule := range []string{"PERSIST-1", "PERSIST-2", "PERSIST-3", "PERSIST-4", "PERSIST-6", "PERSIST-7", "SAVE-1"} {
 		v := ob.Holds
 		var msgs []string
 		for _, f := range k.ctl.fired[rule] {
